@@ -130,6 +130,10 @@ pub fn dispatch(v: &Value) -> Value {
             let out = hk::input_ops(&src, &ops);
             json!({"ok": out.iter().map(|t| json!([t.0, t.1, t.2, t.3, t.4, t.5])).collect::<Vec<_>>()})
         }
+        "skip_trivia" => {
+            let src = s(v, "src");
+            json!({"rest": hk::skip_trivia(&src), "comment": hk::comment(&src).map(|(c, n)| json!([c, n]))})
+        }
         "charset" => {
             let st = crate::ir::string_type(v.get("cs")).unwrap();
             let cs: Vec<u32> = hk::character_set(st).into_iter().map(|c| c as u32).collect();
